@@ -257,3 +257,20 @@ def run(ctx):
     n_so += 1
     ctx.ob('STDIO-OWN', 'sf_open_fd', okfd, ofd.loc(ofd.body), 'do_not_close_descriptor is %s' % ('derived from close_desc' if okfd else 'NOT derived from close_desc'), None)
     ctx.require(n_so >= 3, 'psf_set_stdio: only %d descriptor hand-overs found' % n_so)
+
+    ctx.rule('OFFSET-ROUTE', 'the position primitives treat psf->fileoffset (start of the sound data inside the file: embedding, ID3v2 tag) alike on every route: in psf_fseek and psf_ftell the '
+             'branch taken for virtual I/O uses psf->fileoffset whenever the descriptor path of the same function does (a tagged file opened through sf_open_virtual otherwise parses and '
+             'reads from positions that are off by the tag length); psf_get_filelen is frozen: the descriptor path corrects the length in SFM_WRITE only, where virtual I/O has no offset', floor=2)
+    n_or = 0
+    for nm in ('psf_fseek', 'psf_ftell'):
+        g = prog.fn(nm, 'file_io.c')
+        vb = [n for n in g.walk() if n['k'] == 'IfStmt' and g.s(n['cond']).replace('(', '').replace(')', '').strip() == 'psf->virtual_io']
+        ctx.require(vb, '%s has no virtual I/O branch' % nm)
+        th = g.N[vb[0]['then']]
+        in_v = any(x['k'] == 'MemberExpr' and x['n'] == 'fileoffset' for x in g.walk(th))
+        in_d = any(x['k'] == 'MemberExpr' and x['n'] == 'fileoffset' and not g.within(x, th) for x in g.walk())
+        n_or += 1
+        ok = in_v or not in_d
+        ctx.ob('OFFSET-ROUTE', nm, ok, g.loc(vb[0]), 'descriptor path %s psf->fileoffset, virtual I/O branch %s it' % ('uses' if in_d else 'does not use', 'uses' if in_v else 'does NOT use') +
+               ('' if ok else ': through sf_open_virtual every position is off by the length of the ID3v2 tag that the path / descriptor routes skip'), None)
+    ctx.require(n_or >= 2, 'position primitives not found')
